@@ -285,6 +285,8 @@ def current():
 def _run_enum(ctx, shard, nshards):
     for i, case in enumerate(ctx.part.cases()):
         if i % nshards != shard:
+            if i % 256 == 0:
+                ctx.heartbeat()
             continue
         new, r = ctx.process(case)
         for v in new:
@@ -567,6 +569,8 @@ def main(check, argv=None):
         if args.parts:
             pre = args.parts.split(',')
             parts = [p for p in parts if any(p.name.startswith(x) for x in pre)]
+        if hasattr(check, 'warm'):
+            check.warm(args.tier)       # build models once in the parent; forked workers inherit them
         total, per_part, errors = run_parts(check, parts, findings, args.tier, seed, workdir)
         shutil.rmtree(workdir, ignore_errors=True)
         if errors:
@@ -618,7 +622,7 @@ def main(check, argv=None):
                 'distinct_nontrivial': len(total.nt),
                 'rule': check.RULE,
                 'samples': _pick_samples(per_part),
-                'exhaustive': bool(parts) and all(p.exhaustive for p in parts),
+                'exhaustive': bool(parts) and all(p.exhaustive for p in parts) and not total.hangs,
                 'exhaustive_parts': [p.name for p in parts if p.exhaustive],
                 'parts': {name: {'cases': s.cases, 'evaluations': s.evals, 'distinct_nontrivial': len(s.nt)}
                           for name, s in sorted(per_part.items())},
@@ -642,6 +646,9 @@ def main(check, argv=None):
         if COLLECT:
             for b, n in sorted(total.vcount.items(), key=lambda kv: -kv[1]):
                 print('BUCKET %6d  %s' % (n, b))
+        for hgn in inconclusive:
+            print('INCONCLUSIVE property=%s part=%s shard=%s: no progress for %ss, worker stopped; last case: %s' % (
+                prop, hgn['part'], hgn['shard'], hgn['allowance_s'], hgn['case'][:300]))
         for ln in lines:
             print(ln)
         print('%s tier=%s seed=%d cases=%d evaluations=%d distinct_nontrivial=%d known_hits=%d violations=%d wall=%.1fs' % (
